@@ -223,6 +223,8 @@ def sig_for(name, cfg, kind):
             parts.append('nc=%s' % cfg.get('nc', 'any'))
         if kind.startswith('raises') and tt == 'bootstrap':
             parts.append('ndim%s' % cfg.get('ndim', '=any'))
+        if cfg.get('nan') and tt == 't-test':
+            parts.append('nan=%s' % cfg['nan'])
     return '%s|%s|%s' % (op, ','.join(parts), kind)
 
 
@@ -350,7 +352,7 @@ def judge_t_reference(ctx, obs, cfg, case, ev, ceil, cov, m, dof, n_rdm, n_patte
     mv, dv, nv = reference_variances(cov, m, n_rdm, n_pattern)
     with np.errstate(all='ignore'):
         ceiling = float(np.nanmean(np.asarray(ceil, dtype=float)[0]))
-    want = ref.t_test_reference(ref.nan_mean_per_model(ev), mv, dv, nv[:, 0], ceiling, dof)
+    want = ref.t_test_reference(ref.nan_mean_axiswise(ev), mv, dv, nv[:, 0], ceiling, dof)
     plan = [('p_pair', want['p_pair'], want['pair_ok'] | np.eye(m, dtype=bool)), ('p_zero', want['p_zero'], want['zero_ok']),
             ('p_noise', want['p_nc'], want['nc_ok'])]
     for fam, w, ok in plan:
@@ -370,6 +372,42 @@ def judge_t_reference(ctx, obs, cfg, case, ev, ceil, cov, m, dof, n_rdm, n_patte
                 ctx.fail(sig_for(name, cfg, 'differs-from-t-test-on-the-covariance-contrast'), case,
                          '%s = %r, reference %r (dof %r, ceiling %r, stored covariance %r)' % (
                              name, got.tolist(), w.tolist(), dof, ceiling, np.asarray(cov).tolist()))
+
+
+def judge_t_family_consistency(ctx, obs, cfg, case, ceil, cov, m, dof, n_rdm, n_pattern):
+    """the three t-test families must test the SAME per-model means: the mean implied by the
+    against-zero p-value (t quantile x sqrt(model variance)) has to reproduce the against-ceiling and the
+    pairwise p-values with their own variance contrasts"""
+    from scipy import stats
+    mv, dv, nv = reference_variances(cov, m, n_rdm, n_pattern)
+    with np.errstate(all='ignore'):
+        ceiling = float(np.nanmean(np.asarray(ceil, dtype=float)[0]))
+    for suffix in ('', '_all'):
+        r = obs.get('p_zero%s:t-test' % suffix)
+        if r is None or r[0] != 'ok':
+            continue
+        pz = np.asarray(r[1], dtype=float)
+        if pz.shape != (m,):
+            continue
+        usable = (np.asarray(mv) > 1e-12) & (pz > 1e-6) & (pz < 1 - 1e-6)
+        implied = np.where(usable, stats.t.isf(np.clip(pz, 1e-300, 1.0), dof) * np.sqrt(np.maximum(mv, 0)), np.nan)
+        want = ref.t_test_reference(np.where(usable, implied, 0.0), mv, dv, nv[:, 0], ceiling, dof)
+        rn = obs.get('p_noise%s:t-test' % suffix)
+        if rn is not None and rn[0] == 'ok' and np.asarray(rn[1]).shape == (m,):
+            ok = usable & want['nc_ok']
+            got = np.asarray(rn[1], dtype=float)
+            if ok.any() and not allclose(got[ok], want['p_nc'][ok], 1e-6):
+                ctx.fail(sig_for('p_noise%s:t-test' % suffix, cfg, 'tests-a-different-mean-than-test_zero'), case,
+                         'means implied by test_zero %r give p against the ceiling %r, test_noise returns %r' % (
+                             implied.tolist(), want['p_nc'].tolist(), got.tolist()))
+        rp = obs.get('p_pair%s:t-test' % suffix)
+        if rp is not None and rp[0] == 'ok' and np.asarray(rp[1]).shape == (m, m):
+            ok = np.outer(usable, usable) & want['pair_ok'] & ~np.eye(m, dtype=bool)
+            got = np.asarray(rp[1], dtype=float)
+            if ok.any() and not allclose(got[ok], want['p_pair'][ok], 1e-6):
+                ctx.fail(sig_for('p_pair%s:t-test' % suffix, cfg, 'tests-a-different-mean-than-test_zero'), case,
+                         'means implied by test_zero %r give pairwise p %r, test_pairwise returns %r' % (
+                             implied.tolist(), want['p_pair'].tolist(), got.tolist()))
 
 
 def observe_errorbars(R, shape, full=False):
@@ -622,6 +660,19 @@ def build_evaluations(case, seed):
         ev[..., mask] = np.nan                  # whole subjects / folds missing
     else:
         ev[mask] = np.nan                       # whole bootstrap samples missing
+    pat = case.get('nanpat')
+    if pat:
+        # uneven NaN patterns inside sample 1 (0 if there is only one): one fold, one repetition of one
+        # fold (all models), or a single entry of one model
+        sidx = 1 if shape[0] > 1 else 0
+        if pat == 'fold':
+            ev[(sidx, slice(None), 0)] = np.nan
+        elif pat == 'rep':
+            ev[(sidx, slice(None), 0, shape[3] - 1)] = np.nan
+        elif pat == 'model':
+            ev[(sidx, m - 1) + (0,) * (len(shape) - 2)] = np.nan
+        else:
+            raise ValueError(pat)
     ncf = case.get('ncf', 'fixed')
     g = rng_for(seed, 'ceil', *shape)
     if vals[0] in ('A', 'S'):
@@ -702,6 +753,8 @@ def run_T(case, ctx):
         return Result([models[a] for a in perm], ev[:, list(perm)].copy(), 'cosine', cv, ceil.copy(),
                       variances=ref.permute_cov(cov, perm, m), dof=dof, n_rdm=n_rdm, n_pattern=n_pattern)
 
+    if case.get('nanpat'):
+        cfg['nan'] = 'uneven'
     ident = tuple(range(m))
     with ctx.guard('Result.__init__|var=%s' % cfg['var'], case):
         R = make(ident)
@@ -712,11 +765,12 @@ def run_T(case, ctx):
         judge_all_consistency(ctx, base, cfg, case)
         if 't-test' in types:
             judge_t_reference(ctx, base, cfg, case, ev, ceil, cov, m, dof, n_rdm, n_pattern)
+            judge_t_family_consistency(ctx, base, cfg, case, ceil, cov, m, dof, n_rdm, n_pattern)
             judge_errorbars(ctx, observe_errorbars(R, shape), cfg, case)
             judge_summary(ctx, R, 't-test', base, cfg, case)
         r = base['means']
         if r[0] == 'ok':
-            want = ref.nan_mean_per_model(ev)
+            want = ref.nan_mean_axiswise(ev)
             got = np.asarray(r[1], dtype=float)
             ctx.dev('means', maxreldev(got, want) if got.shape == want.shape else float('inf'))
             if got.shape != want.shape or not allclose(got, want, TOL):
@@ -1606,6 +1660,12 @@ def run_shard(shard, ctx):
             if 'maskpart' in shard:
                 a, b = shard['maskpart']
                 masks = masks[a::b]
+            if 'ranksum' not in shard['types'] and shape[0] >= 2 and len(shape) >= 3:
+                # NaN entries spread unevenly over the further axes (mean of means != pooled mean)
+                for pat in ['fold', 'model'] + (['rep'] if len(shape) >= 4 else []):
+                    for i, vc in enumerate(shard['vcs'][:2]):
+                        run_case({'fam': 'T', 'shape': shape, 'mask': [], 'nanpat': pat, 'ncf': shard['ncf'],
+                                  'vc': vc, 'types': shard['types'], 'vals': ['B', shard['fill']], 'vfill': i % 2}, ctx)
             for mask in masks:
                 if 'ranksum' in shard['types'] and shape[0] == 1 and mask:
                     continue        # rank-sum over subjects with missing evaluations: not claimed
